@@ -124,7 +124,7 @@ def start_mc(jobs, thorough):
     if thorough:
         mcfg = mcfg.replace("NC = 2", "NC = 3")
         icfg = icfg.replace('IdVocab = "small"', 'IdVocab = "full"')
-        lcfg = lcfg.replace("NC = 2", "NC = 3").replace("MaxPN = 1", "MaxPN = 0")
+        lcfg = lcfg.replace("NN = 0", "NN = 1")     # 3 callers: 411k states, >10 min of liveness checking
     jobs.tlc("c_mc", "JsonRpc", "mc.cfg", files={"mc.cfg": mcfg}, workers=16 if thorough else 8, timeout=1500, xmx="12g" if thorough else "4g")
     jobs.tlc("c_ids", "JsonRpc", "ids.cfg", files={"ids.cfg": icfg}, workers=8, timeout=1500, xmx="8g" if thorough else "4g")
     jobs.tlc("c_live", "JsonRpc", "live.cfg", files={"live.cfg": lcfg}, workers=8, timeout=1500, xmx="8g")
@@ -433,6 +433,11 @@ def conn(ck, thorough, jobs):
             ck.violation(sig, "conn%s: %s" % (" (burst of %d concurrent callers)" % s["burst_callers"] if cases[c["id"]]["eager"] else "", what),
                          {"events": [render(e) for e in c["ev"]], "rejected_at_event": hwm.get(c["id"], 0),
                           "rejected_cases_this_run": len(rejected), "burst": cases[c["id"]]["eager"]})
+    # what the harness saw hanging in a burst (reported after the trace's verdict: root cause first)
+    for c in cases.values():
+        if c["hang"]["sig"]:
+            ck.violation(c["hang"]["sig"], "conn (burst of %d concurrent callers): %s" % (s["burst_callers"], c["hang"]["what"]),
+                         {"events": [render(e) for e in c["ev"]]})
     # a burst call that returned only because the watchdog cancelled it although its request was answered
     for c in cases.values():
         if c["id"] in accepted and c.get("timedout"):
